@@ -695,7 +695,15 @@ impl JitCompiler {
                     self.emit_mov(mem, src, RCX);
                     self.emit_alu32(mem, 0xd3, 7, dst);
                 }
-                ebpf::LE         => {}, // No-op
+                ebpf::LE         => {
+                    // No byte swap on a little-endian host, but the result is truncated to the
+                    // operand width, as in the interpreter.
+                    match insn.imm {
+                        16 => self.emit_alu32_imm32(mem, 0x81, 4, dst, 0xffff), // and dst32, 0xffff
+                        32 => self.emit_alu32(mem, 0x89, dst, dst),             // mov dst32, dst32
+                        _  => {}
+                    }
+                },
                 ebpf::BE         => {
                     match insn.imm {
                         16 => {
